@@ -206,7 +206,7 @@ func init() {
 					}
 				}
 				for si := 0; si < len(keyStarts); si++ {
-					for mode := 0; mode < 4; mode++ {
+					for mode := 0; mode < 5; mode++ {
 						var cs []combo
 						if full {
 							cs = combos
@@ -229,6 +229,9 @@ func init() {
 
 func c26Run(e *enumCtx, content []c26KV, split, mode, batching, interleave, done, cfg int) (string, string) {
 	if cfg == 3 && mode >= 2 {
+		if mode == 4 {
+			return "", "" // in-memory: as mode 0
+		}
 		mode = mode % 2 // in-memory: no pre-existing on-disk layouts; prepare / incremental on empty
 	}
 	dir := freshDir(e.j)
@@ -257,9 +260,15 @@ func c26Run(e *enumCtx, content []c26KV, split, mode, batching, interleave, done
 	// mode 0: Prepare on a non-empty DB (content dropped); 1: PrepareIncremental on an empty DB;
 	// 2: incremental over data in the last level only; 3: incremental over L0 + last level (Flatten)
 	switch mode {
-	case 0:
+	case 0, 4:
 		if s := writePre("zz"); s != "" {
 			return "c26-setup", s
+		}
+		if mode == 4 {
+			// mode 4: as mode 0, but the old content lives in a table that has been read (its index
+			// is cached under the table's id; Prepare restarts the table ids)
+			lsmFlushNoBubble(db)
+			_ = db.View(func(txn *Txn) error { _, _ = txn.Get([]byte("zz")); return nil })
 		}
 		pre = nil // Prepare drops everything
 	case 2, 3:
@@ -287,7 +296,7 @@ func c26Run(e *enumCtx, content []c26KV, split, mode, batching, interleave, done
 	}
 	sw := db.NewStreamWriter()
 	var err error
-	if mode == 0 {
+	if mode == 0 || mode == 4 {
 		err = sw.Prepare()
 	} else {
 		err = sw.PrepareIncremental()
